@@ -116,7 +116,16 @@ pub fn run_case(env: &Env, ctx: &mut Ctx, idx: u64) {
     if relaid.contains('`') {
         ctx.count("pairs_with_directives", 1);
     }
-    let witness = |d: &str| Obj::new().s("original", &orig).s("relaid", &relaid).s("kind", kind).s("detail", d).done();
+    // now and then the thread has just been through a call that was rejected half-way (thread-local parser state
+    // is initialised per call, so this must not matter to the pair that follows)
+    let mut earlier = String::new();
+    if rng.chance(1, 5) {
+        earlier = rng.pick(crate::mon_hist::POLLUTERS).to_string();
+        let c = Cfg::default();
+        let _ = if rng.chance(1, 2) { pp_str(&earlier, std::path::Path::new("h.sv"), &c).map(|_| ()) } else { parse_str(Gram::Sv, &earlier, std::path::Path::new("h.sv"), &c).map(|_| ()) };
+        ctx.count("pairs_after_a_rejected_call", 1);
+    }
+    let witness = |d: &str| Obj::new().s("original", &orig).s("relaid", &relaid).s("kind", kind).s("earlier_call_on_this_thread", &earlier).s("detail", d).done();
     for path in ["raw", "pp"] {
         let run = |t: &str| if path == "raw" { raw(t) } else { via_pp(t) };
         let (a, b) = match (run(&orig), run(&relaid)) {
